@@ -1,17 +1,75 @@
 /-
 Line-protocol driver over all executable models.  One request per line: `<topic> <op> <args…>`;
 one answer per line.  `bad-op` means the line could not be interpreted (a harness error, never a verdict).
+Each topic lives in its own module `Oracle.Cnn` with `St`, `init`, `step`.
 -/
+import Oracle.C01
+import Oracle.C02
+import Oracle.C03
+import Oracle.C04
+import Oracle.C05
+import Oracle.C06
+import Oracle.C07
+import Oracle.C08
+import Oracle.C09
+import Oracle.C10
+import Oracle.C11
+import Oracle.C12
+import Oracle.C13
 import Oracle.C14
+import Oracle.C15
+import Oracle.C16
+import Oracle.C17
+import Oracle.C18
+import Oracle.C19
+import Oracle.C20
 
 namespace Oracle
 
 structure State where
+  c01 : C01.St := C01.init
+  c02 : C02.St := C02.init
+  c03 : C03.St := C03.init
+  c04 : C04.St := C04.init
+  c05 : C05.St := C05.init
+  c06 : C06.St := C06.init
+  c07 : C07.St := C07.init
+  c08 : C08.St := C08.init
+  c09 : C09.St := C09.init
+  c10 : C10.St := C10.init
+  c11 : C11.St := C11.init
+  c12 : C12.St := C12.init
+  c13 : C13.St := C13.init
   c14 : C14.St := C14.init
+  c15 : C15.St := C15.init
+  c16 : C16.St := C16.init
+  c17 : C17.St := C17.init
+  c18 : C18.St := C18.init
+  c19 : C19.St := C19.init
+  c20 : C20.St := C20.init
 
 def dispatch (st : State) (line : String) : State × String :=
   match (line.trimAscii.toString.splitOn " ").filter (· != "") with
+  | "c01" :: args => let (s, o) := C01.step st.c01 args; ({ st with c01 := s }, o)
+  | "c02" :: args => let (s, o) := C02.step st.c02 args; ({ st with c02 := s }, o)
+  | "c03" :: args => let (s, o) := C03.step st.c03 args; ({ st with c03 := s }, o)
+  | "c04" :: args => let (s, o) := C04.step st.c04 args; ({ st with c04 := s }, o)
+  | "c05" :: args => let (s, o) := C05.step st.c05 args; ({ st with c05 := s }, o)
+  | "c06" :: args => let (s, o) := C06.step st.c06 args; ({ st with c06 := s }, o)
+  | "c07" :: args => let (s, o) := C07.step st.c07 args; ({ st with c07 := s }, o)
+  | "c08" :: args => let (s, o) := C08.step st.c08 args; ({ st with c08 := s }, o)
+  | "c09" :: args => let (s, o) := C09.step st.c09 args; ({ st with c09 := s }, o)
+  | "c10" :: args => let (s, o) := C10.step st.c10 args; ({ st with c10 := s }, o)
+  | "c11" :: args => let (s, o) := C11.step st.c11 args; ({ st with c11 := s }, o)
+  | "c12" :: args => let (s, o) := C12.step st.c12 args; ({ st with c12 := s }, o)
+  | "c13" :: args => let (s, o) := C13.step st.c13 args; ({ st with c13 := s }, o)
   | "c14" :: args => let (s, o) := C14.step st.c14 args; ({ st with c14 := s }, o)
+  | "c15" :: args => let (s, o) := C15.step st.c15 args; ({ st with c15 := s }, o)
+  | "c16" :: args => let (s, o) := C16.step st.c16 args; ({ st with c16 := s }, o)
+  | "c17" :: args => let (s, o) := C17.step st.c17 args; ({ st with c17 := s }, o)
+  | "c18" :: args => let (s, o) := C18.step st.c18 args; ({ st with c18 := s }, o)
+  | "c19" :: args => let (s, o) := C19.step st.c19 args; ({ st with c19 := s }, o)
+  | "c20" :: args => let (s, o) := C20.step st.c20 args; ({ st with c20 := s }, o)
   | ["ping"] => (st, "pong")
   | _ => (st, "bad-op")
 
